@@ -3,6 +3,7 @@
 
   seed.py confirm <worktree> <A|B> <seed-name> <property>   confirm an agent's change in its scratch worktree
         (suite passes with it, demo fails with it and passes without) and store it under seeded/<name>/
+  seed.py benign <patch.diff> [props...]                     a behaviour-preserving change: all checks must exit 0
   seed.py run <seed-name>|all [props...]                     apply to /repo, run the quick checks, undo; report who catches it
 """
 import json
@@ -127,7 +128,35 @@ def run(name, props=None):
     return res
 
 
+def benign(patch, props=None):
+    """A behaviour-preserving change: every claimed check must still exit 0 on it."""
+    name = os.path.basename(patch).replace(".diff", "")
+    scratch = "/tmp/seedrun/benign_%s" % name
+    out = "/tmp/seedrun/out_benign_%s" % name
+    sh("rm -rf %s %s; mkdir -p /tmp/seedrun" % (scratch, out))
+    sh("git worktree prune", cwd="/repo")
+    rc, o = sh("git worktree add -q --detach %s HEAD" % scratch, cwd="/repo")
+    assert rc == 0, o
+    bad = {}
+    try:
+        rc, o = sh("git apply %s" % patch, cwd=scratch)
+        if rc != 0:
+            print("patch does not apply:", o)
+            return None
+        for p in props or claimed():
+            rc, o = sh("VERIF_REPO=%s VERIF_OUT=%s ./check %s --tier quick" % (scratch, out, p), cwd=VERIF)
+            if rc != 0:
+                bad[p] = (rc, [l[:400] for l in o.splitlines() if l.startswith(("VIOLATION", "CHECKER-FAULT", "UNDECIDED"))][:4])
+    finally:
+        sh("git worktree remove --force %s; git worktree prune" % scratch, cwd="/repo")
+        sh("rm -rf %s %s" % (scratch, out))
+    print("%-30s %s" % (name, "all checks exit 0" if not bad else "FALSE ALARM / UNDECIDED: " + json.dumps(bad, indent=1)))
+    return bad
+
+
 if __name__ == "__main__":
+    if sys.argv[1] == "benign":
+        sys.exit(1 if benign(sys.argv[2], sys.argv[3:] or None) else 0)
     if sys.argv[1] == "confirm":
         sys.exit(confirm(*sys.argv[2:6]))
     if sys.argv[1] == "run":
